@@ -19,6 +19,7 @@ theorem AMap.get_set : ∀ (m : AMap) (k : Nat × Nat) (e : Entry) (k' : Nat × 
     by_cases h0 : k0 = k
     · subst h0
       simp only [if_true, AMap.get_cons]
+      by_cases h1 : k0 = k' <;> simp [h1]
     · simp only [h0, if_false, AMap.get_cons, AMap.get_set r k e k']
       by_cases h1 : k0 = k'
       · subst h1
@@ -69,13 +70,8 @@ theorem AMap.keys_set : ∀ (m : AMap) (k : Nat × Nat) (e : Entry),
 
 theorem AMap.keys_erase (m : AMap) (k : Nat × Nat) : akeys (m.erase k) = (akeys m).filter fun x => x ≠ k := by
   unfold AMap.erase akeys
-  induction m with
-  | nil => rfl
-  | cons a r ih =>
-    simp only [List.filter_cons, List.map_cons]
-    by_cases h : a.1 = k
-    · simp [h, ih]
-    · simp [h, ih]
+  rw [List.filter_map]
+  rfl
 
 /-! ### building `adj` (:58-64) -/
 
@@ -181,7 +177,7 @@ theorem build_nil (adj : List Link) :
     akeys (build adj []) = keysOf adj ∧
     ∀ a b, (build adj []).get (a, b) = if linksFrom adj a b = [] then none else some (.links (linksFrom adj a b)) := by
   obtain ⟨_, h2, h3⟩ := build_spec adj [] (by intro k p; simp [AMap.get])
-  refine ⟨by simpa [keysOf, pkey] using h2, ?_⟩
+  refine ⟨by rw [h2]; rfl, ?_⟩
   intro a b
   simpa [AMap.get] using h3 a b
 
